@@ -382,7 +382,11 @@ def report(ctx, mcount, keep, hist_hit):
         for _, _, summary, case in keep[klass]:
             again, _ = R.run_case(case)
             if not any(k == klass for k, _ in again):
-                raise RuntimeError(f"witness of {klass} did not reproduce: {summary}")
+                # observed on the real objects during the sweep but dependent on object history (e.g. a
+                # cache that an earlier case filled): reported as observed, without shrinking
+                ctx.violation(klass + ":history-dependent", {"case": case, "mismatch": summary},
+                              f"{case['kind']} steps={json.dumps(case['steps'])}: {summary} (did not reproduce on fresh objects)")
+                continue
             shrunk.append(shrink(case, klass))
         shrunk.sort(key=lambda t: (_size(t[0]), len(t[0]["runs"])))
         done = set()
@@ -500,7 +504,6 @@ def run(tier, seed):
     thorough = tier == "thorough"
     rng = random.Random(seed)
     import time
-    selftest(ctx)
     t0 = time.time()
     hists, stats, gn, results = run_models(tier, seed)
     t1 = time.time()
@@ -510,6 +513,8 @@ def run(tier, seed):
     t2 = time.time()
     report(ctx, mcount, keep, hist_hit)
     check_alpha(ctx, rng, thorough)
+    if not ctx.violations and not ctx.known_hits:
+        selftest(ctx)      # the self-test uses the real code as its reference: meaningful only when the code conforms
     some = HISTS[max(HISTS)][len(HISTS[max(HISTS)]) // 2]
     ctx.sample({"history": some["ops"], "cur": some["cur"]})
     ctx.sample({"tlc_counterexamples_on_code_shaped_graphnode_algorithms": gn})
